@@ -11,10 +11,10 @@ LEAN_MODULES = ["AllfedModel.Props.C12"]
 OBLIGATIONS = ["Allfed.C12." + n for n in [
     "scale_feasible", "scale_optimum", "mono_storedInitial", "mono_cropProd", "mono_scp", "mono_cs", "mono_meat", "mono_constants",
     "charge_antitone_partial", "limits_needed_counterexample", "mono_wasteStored", "mono_wasteCrop", "mono_wasteSeaweed_partial",
-    "mono_wasteSeaweed_counterexample"]]
+    "mono_wasteSeaweed_counterexample", "mono_scp_cs", "mono_scp_cs_constants", "mono_all_supplies"]]
 LEVEL_TEXT = ("Lean 4 theorems about the LP the code builds (human-maximising rounds, all inputs): scaling population and every supply by k>0 maps feasible points to feasible points "
               "with the same objective, both ways (equal optimum); for each supply (stock, monthly crops, SCP, sugar, meat total/caps, milk, fish, greenhouse) an explicit "
-              "transformation of any feasible point of the smaller instance into a feasible point of the larger with objective >=; lowering the feed/biofuel charge likewise without seaweed; lowering the retail waste of stored food or of crops likewise "
+              "transformation of any feasible point of the smaller instance into a feasible point of the larger with objective >=, and the same for all of them raised at once (mono_all_supplies, by composition); lowering the feed/biofuel charge likewise without seaweed; lowering the retail waste of stored food or of crops likewise "
               "(mono_wasteStored, mono_wasteCrop). For seaweed's retail waste the statement is FALSE for the LP (mono_wasteSeaweed_counterexample: less waste means more reaches people, whose "
               "intake cap then makes the forced harvest infeasible) and proved under the proviso that the caps still hold (mono_wasteSeaweed_partial). "
               "Partial: charge antitonicity with seaweed and seaweed's waste are covered only by re-solving perturbed real instances with the real Optimizer.")
